@@ -68,12 +68,103 @@ def coq_makefile():
             raise TieBroken("coq_makefile: " + out)
 
 
-def coq_make(targets, timeout=1500):
-    """returns (ok, log)"""
+def coq_make(targets, timeout=3000):
+    """full `make` (used by setup only); returns (ok, log)"""
     with Lock("coq"):
         coq_makefile()
         rc, out = sh(["make", "-j%d" % NCPU, "-k"] + targets, cwd=COQ, timeout=timeout)
     return rc == 0, out
+
+
+def _coq_args():
+    args = []
+    for line in open(os.path.join(COQ, "_CoqProject")):
+        t = line.split()
+        if not t:
+            continue
+        if t[0] == "-Q" and len(t) == 3:
+            args += ["-Q", t[1], t[2]]
+        elif t[0] == "-arg":
+            i = 0
+            while i + 1 < len(t):
+                if t[i] == "-arg":
+                    args.append(t[i + 1]); i += 2
+                else:
+                    i += 1
+    return args
+
+
+_DEP_CACHE = {}
+
+
+def coq_direct_deps(vfile):
+    """project-local files `vfile` requires (relative .v paths), via coqdep; cached per (path, mtime)"""
+    full = os.path.join(COQ, vfile)
+    try:
+        key = (vfile, os.stat(full).st_mtime_ns)
+    except OSError:
+        return []
+    if key in _DEP_CACHE:
+        return _DEP_CACHE[key]
+    rc, out = sh(["coqdep", "-Q", ".", "V", vfile], cwd=COQ, timeout=60)
+    deps = []
+    first = out.split("\n")[0] if out else ""
+    rhs = first.split(":", 1)[1] if ":" in first else ""
+    for dep in re.findall(r"(\S+)\.vo\b", rhs):
+        p = dep + ".v"
+        if p != vfile and os.path.exists(os.path.join(COQ, p)) and p not in deps:
+            deps.append(p)
+    _DEP_CACHE[key] = deps
+    return deps
+
+
+def coq_topo(vfile):
+    order, seen = [], set()
+
+    def visit(f):
+        if f in seen:
+            return
+        seen.add(f)
+        for d in coq_direct_deps(f):
+            visit(d)
+        order.append(f)
+    visit(vfile)
+    return order
+
+
+def _mt(path):
+    try:
+        return os.stat(path).st_mtime_ns
+    except OSError:
+        return None
+
+
+def coq_build(vfile, force_last=False, timeout=1500):
+    """mini-make with one lock PER FILE (several checks build concurrently without waiting for each other's
+    unrelated proof files): compiles the transitive dependencies of `vfile` that are stale, then `vfile`.
+    returns (ok, log, output of the last compilation of vfile or None)"""
+    args = _coq_args()
+    log, last_out = [], None
+    for f in coq_topo(vfile):
+        vo = os.path.join(COQ, f + "o")
+        with Lock("coq_" + re.sub(r"[^A-Za-z0-9]", "_", f)):
+            src = _mt(os.path.join(COQ, f))
+            tgt = _mt(vo)
+            stale = tgt is None or src is None or tgt < src
+            if not stale:
+                for d in coq_direct_deps(f):
+                    dm = _mt(os.path.join(COQ, d + "o"))
+                    if dm is None or dm > tgt:
+                        stale = True
+                        break
+            if stale or (force_last and f == vfile):
+                rc, out = sh(["coqc"] + args + [f], cwd=COQ, timeout=timeout)
+                log.append("coqc %s -> %d\n%s" % (f, rc, out[-4000:]))
+                if f == vfile:
+                    last_out = out
+                if rc != 0:
+                    return False, "\n".join(log), last_out
+    return True, "\n".join(log), last_out
 
 
 FORBIDDEN = re.compile(r"\b(Admitted|admit|Axiom|Axioms|Parameter|Parameters|Conjecture|Admit Obligations|bypass_check)\b|Unset\s+Guard|Unset\s+Positivity|Unset\s+Universe|-type-in-type|impredicative-set")
@@ -116,19 +207,8 @@ def coq_static_scan(files):
 
 
 def coq_deps(vfile):
-    """transitive project-local .v dependencies of a file (via coqdep)"""
-    seen, todo = set(), [vfile]
-    while todo:
-        f = todo.pop()
-        if f in seen:
-            continue
-        seen.add(f)
-        rc, out = sh(["coqdep", "-Q", ".", "V", f], cwd=COQ, timeout=60)
-        for dep in re.findall(r"(\S+)\.vo\b", out.split(":", 1)[1] if ":" in out else ""):
-            p = dep + ".v"
-            if os.path.exists(os.path.join(COQ, p)) and p not in seen:
-                todo.append(p)
-    return sorted(seen)
+    """transitive project-local .v dependencies of a file, the file itself included"""
+    return sorted(coq_topo(vfile))
 
 
 def coq_properties(pid):
@@ -147,7 +227,7 @@ def coq_properties(pid):
         t = strip_coq_comments(open(os.path.join(COQ, f)).read())
         nthm += len(re.findall(r"^\s*(?:Local\s+|Global\s+|#\[[^\]]*\]\s*)?(Theorem|Lemma|Corollary|Fact|Example|Proposition|Remark)\b", t, re.M))
     res["obligations"] = nthm
-    ok, log = coq_make([pf + "o"])
+    ok, log, out = coq_build(pf, force_last=True)
     res["log"] = log
     if not ok:
         # count what did get through: every project file whose .vo exists and is fresh
@@ -159,12 +239,8 @@ def coq_properties(pid):
                 done += len(re.findall(r"^\s*(?:Local\s+|Global\s+)?(Theorem|Lemma|Corollary|Fact|Example|Proposition|Remark)\b", t, re.M))
         res["discharged"] = done
         return res
-    # re-run coqc on the properties file alone to capture Print Assumptions
-    with Lock("coq"):
-        rc, out = sh(["coqc", "-Q", ".", "V", "-w", "-notation-overridden", pf], cwd=COQ, timeout=900)
-    res["log"] += out
-    if rc != 0:
-        return res
+    # the properties file itself is recompiled on every run: its output carries the Print Assumptions blocks
+    out = out or ""
     names = re.findall(r"Print Assumptions\s+([\w.']+)\s*\.", strip_coq_comments(open(os.path.join(COQ, pf)).read()))
     blocks = re.split(r"(?m)^(?=Closed under the global context|Axioms:)", out)
     blocks = [b for b in blocks if b.startswith("Closed under") or b.startswith("Axioms:")]
@@ -190,9 +266,11 @@ def build_model_driver(pid):
     vo = os.path.join(COQ, pid, "Extract.vo")
     if not os.path.exists(ml) and os.path.exists(vo):
         os.remove(vo)
-    ok, log = coq_make(["%s/Extract.vo" % pid])
+    ok, log, _ = coq_build("%s/Extract.v" % pid, force_last=not os.path.exists(ml))
     if not ok or not os.path.exists(ml):
         raise TieBroken("model extraction failed:\n" + log[-3000:])
+    if re.search(r"^val (run_model|run_tag|run_spec)\d+ :", open(ml + "i").read(), re.M):
+        raise TieBroken("extraction renamed an entry point (name clash between two imported modules defining run_model/run_tag/run_spec): rename the inner one")
     d = os.path.join(BUILD, "ocaml", low)
     os.makedirs(d, exist_ok=True)
     exe = os.path.join(d, "model_driver")
